@@ -122,6 +122,16 @@ harnesses! {
         let j = d.usize();
         vassume!(j < w);
         assert!(bits[j] == (((v as u16) >> (w - 1 - j)) & 1 == 1), "C05.skf.layout: two's complement MSB first");
+        // the same statement in value form (the form imported by the Verus unit U-SK): the w bits,
+        // read MSB first as a two's complement number, are the centred value
+        let mut acc: i32 = 0;
+        let mut t = 0;
+        while t < w {
+            acc = 2 * acc + bits[t] as i32;
+            t += 1;
+        }
+        let signed = if bits[0] { acc - (1i32 << w) } else { acc };
+        assert!(signed == v as i32, "C05.skf.value: signed value of the field bits == balanced value");
         match SecretKey::<512>::deserialize_field_element(&bits) {
             Ok(back) => assert!(back == e, "C05.skf.roundtrip"),
             Err(_) => assert!(false, "C05.skf.roundtrip: encodable value decodes"),
@@ -135,9 +145,9 @@ harnesses! {
     /// decodes to the value whose encoding is that pattern
     #[kani::unwind(10)]
     fn skf_strict(d) {
-        let sel = d.usize();
-        vassume!(sel < 3);
-        let w = WIDTHS[sel].2;
+        // every field length a chunk of a (possibly truncated) key can have: 1..=8 bits
+        let w = d.usize();
+        vassume!(1 <= w && w <= 8);
         let pat = d.u16();
         vassume!((pat as u32) < (1u32 << w));
         let mut bits = BitVec::new();
@@ -159,7 +169,8 @@ harnesses! {
         }
         vcover!(pat == 1u16 << (w - 1), "reach: reserved pattern");
         vcover!(pat == 0, "reach: zero");
-        vcover!(sel == 2, "reach: width 8");
+        vcover!(w == 8, "reach: width 8");
+        vcover!(w == 1, "reach: width 1");
     }
 }
 
